@@ -119,6 +119,19 @@ class RefOvld:
         # the tied set: applicable methods not beaten strictly by a method that is itself unbeaten
         return ("ambiguous", app)
 
+    def layers(self, args, kwargs):
+        """Successive ranks of the applicable methods: those no remaining method beats strictly."""
+        app = [m for m in self.methods if self.applicable(m, args, kwargs)]
+        n, kw = len(args), kwargs.keys()
+        out = []
+        while app:
+            top = [m for m in app if not any(self.beats(o, m, n, kw) and not self.beats(m, o, n, kw) for o in app if o is not m)]
+            if not top:  # pragma: no cover
+                top = app[:1]
+            out.append(top)
+            app = [m for m in app if m not in top]
+        return out
+
     # R3 + R4: the whole trace of a call whose methods may delegate with the same arguments
     def run(self, args, kwargs, max_steps=64):
         """-> (kind, trace) with kind in ret|nomethod|ambiguous|rejected"""
@@ -138,10 +151,18 @@ class RefOvld:
             if m.body == "cnv":
                 v = m.env["__v"]
                 if self.applicable(m, (v,), {}):
-                    # continuing below m for *other* arguments depends on how ties around m's
-                    # rank are counted, which the statement leaves open: abstain
-                    return ("diverge", tuple(trace))
-                visited = set()  # m not applicable to the new args: a fresh call
+                    # "had the current method and everything ranked above it not been registered":
+                    # everything in the ranks down to m's own goes; if m shares its rank for the new
+                    # arguments the statement does not say what happens to its peers: abstain
+                    lays = self.layers((v,), {})
+                    k = next(i for i, lay in enumerate(lays) if m in lay)
+                    if any(len(lay) > 1 for lay in lays[: k + 1]):
+                        # (also when a rank above m is tied: a fresh call with these arguments
+                        # could never have reached m, and which error wins is not specified)
+                        return ("diverge", tuple(trace))
+                    visited = {o.id for lay in lays[: k + 1] for o in lay}
+                else:
+                    visited = set()  # m not applicable to the new args: a fresh call
                 cur_args, cur_kwargs = (v,), {}
                 continue
             return ("ret", tuple(trace))
